@@ -575,6 +575,15 @@ func (ft *faulter) field(f *sField, n *jval, pos string) {
 	case "date":
 		wrong(jnum("20200101"), jbool(true), &jval{kind: jObj})
 		num("invalid-date", jstr("2020-13-01"), jstr("2020-02-30"), jstr("2020-01"), jstr("abcd-01-01"), jstr("2020-01-01-01"), jstr("2020-00-10"), jstr("2021-04-31"), jstr(""), jstr("2020-01-32"))
+		// days that do not exist: February 29 on a year that is not leap — in particular the century
+		// years of the Gregorian rule (divisible by 100, not by 400; C03-m9) —, February 30, day 31 of
+		// a 30-day month, month / day zero
+		num("nonexistent-day", jstr("1900-02-29"), jstr("2100-02-29"), jstr("1800-02-29"), jstr("1700-02-29"), jstr("2200-02-29"),
+			jstr("2300-02-29"), jstr("2500-02-29"), jstr("0100-02-29"), jstr("0200-02-29"), jstr("0300-02-29"), jstr("0500-02-29"),
+			jstr("9900-02-29"), jstr("1000-02-29"), jstr("2023-02-29"), jstr("2001-02-29"), jstr("0001-02-29"), jstr("9999-02-29"),
+			jstr("2000-02-30"), jstr("2024-02-30"), jstr("2400-02-30"), jstr("1900-02-30"), jstr("2024-02-31"),
+			jstr("2020-04-31"), jstr("2020-06-31"), jstr("2020-09-31"), jstr("2020-11-31"), jstr("1900-06-31"),
+			jstr("2020-01-00"), jstr("2020-00-01"), jstr("2020-12-32"), jstr("2020-13-31"))
 	case "decimal":
 		wrong(jbool(true), &jval{kind: jObj}, &jval{kind: jArr})
 		num("invalid-decimal", jstr("abc"), jstr("1.2.3"), jstr(""), jstr("1,5"))
